@@ -2305,7 +2305,6 @@ impl<'a> Parser<'a> {
     where
         F: FnMut(&mut Parser<'a>) -> Result<(StructField, MatchedTrailingBracket), ParserError>,
     {
-        let start_token = self.peek_token();
         self.expect_keyword(Keyword::STRUCT)?;
 
         // Nothing to do if we have no type information.
@@ -2318,15 +2317,10 @@ impl<'a> Parser<'a> {
         let trailing_bracket = loop {
             let (def, trailing_bracket) = elem_parser(self)?;
             field_defs.push(def);
-            if !self.consume_token(&Token::Comma) {
+            // A field whose closing `>` was the first half of a `>>` token has also closed this
+            // struct: what follows (e.g. a comma) belongs to the enclosing type.
+            if trailing_bracket.0 || !self.consume_token(&Token::Comma) {
                 break trailing_bracket;
-            }
-
-            // Angle brackets are balanced so we only expect the trailing `>>` after
-            // we've matched all field types for the current struct.
-            // e.g. this is invalid syntax `STRUCT<STRUCT<INT>>>, INT>(NULL)`
-            if trailing_bracket.0 {
-                return parser_err!("unmatched > in STRUCT definition", start_token.location);
             }
         };
 
@@ -8080,7 +8074,9 @@ impl<'a> Parser<'a> {
 
         // Parse array data types. Note: this is postgresql-specific and different from
         // Keyword::ARRAY syntax from above
-        while self.consume_token(&Token::LBracket) {
+        // (not when this type's closing `>` was the first half of a `>>` token: the `[` then
+        // belongs to the enclosing type)
+        while !trailing_bracket.0 && self.consume_token(&Token::LBracket) {
             let size = if dialect_of!(self is GenericDialect | DuckDbDialect | PostgreSqlDialect) {
                 self.maybe_parse(|p| p.parse_literal_uint())?
             } else {
